@@ -74,6 +74,7 @@ func (c01) RunCase(c fw.Case, env *fw.Env) *fw.CaseResult {
 	defer s.Close()
 	m := model.New()
 	h := gen.NewHistory(g)
+	h.BigProb, h.BigMax = 0.02, 800
 	steps := c.Int("steps", 30)
 	script := []any{}
 	var recentDead []uuid.UUID
